@@ -35,6 +35,7 @@ import (
 	"github.com/polynetwork/poly/native/service/utils"
 	nstates "github.com/polynetwork/poly/native/states"
 	"github.com/polynetwork/poly/native/storage"
+	"golang.org/x/crypto/ripemd160"
 )
 
 // ---------------------------------------------------------------------------------------------
@@ -79,16 +80,67 @@ func PubHex(a *account.Account) string {
 	return hex.EncodeToString(keypair.SerializePublicKey(a.PublicKey))
 }
 
-// OperatorAddress recomputes, independently of node_manager, the consensus operator address:
-// the (N - floor((N-1)/3))-of-N multi-signature address over the given public keys.
+// OperatorAddress recomputes, independently of node_manager AND of core/types, the consensus operator
+// address: the (N - floor((N-1)/3))-of-N multi-signature address over the given public keys. The
+// program (u16 n, var-bytes of each compressed key in ascending key order, u16 m, little endian) and
+// its address ripemd160(sha256(program)) are built here; only P-256 ECDSA keys (the harness pool) are
+// supported.
 func OperatorAddress(pubs []keypair.PublicKey) common.Address {
 	n := len(pubs)
-	m := n - (n-1)/3
-	a, err := types.AddressFromMultiPubKeys(pubs, m)
-	if err != nil {
-		panic(err)
+	if n == 1 {
+		return RefKeyAddress(pubs[0]) // a single consensus peer is its own operator (no 1-of-1 program)
 	}
-	return a
+	return RefMultiAddress(pubs, n-(n-1)/3)
+}
+
+// RefKeyEnc is the compressed encoding of a P-256 ECDSA public key of the harness pool.
+func RefKeyEnc(pub keypair.PublicKey) []byte {
+	pk, ok := pub.(*ec.PublicKey)
+	if !ok || pk.Curve != elliptic.P256() {
+		panic("world: reference address derivation supports the P-256 ECDSA pool keys only")
+	}
+	out := make([]byte, 33)
+	out[0] = 2 + byte(pk.Y.Bit(0))
+	pk.X.FillBytes(out[1:])
+	return out
+}
+
+// RefAddress is ripemd160(sha256(program)).
+func RefAddress(program []byte) (a common.Address) {
+	t := sha256.Sum256(program)
+	h := ripemd160.New()
+	h.Write(t[:])
+	copy(a[:], h.Sum(nil))
+	return
+}
+
+// RefKeyAddress is the address of a single pool key.
+func RefKeyAddress(pub keypair.PublicKey) common.Address { return RefAddress(RefKeyEnc(pub)) }
+
+// RefMultiAddress is the address of the m-of-n program over the given pool keys.
+func RefMultiAddress(pubs []keypair.PublicKey, m int) common.Address {
+	type xy struct {
+		x, y *big.Int
+		enc  []byte
+	}
+	ks := make([]xy, len(pubs))
+	for i, p := range pubs {
+		pk := p.(*ec.PublicKey)
+		ks[i] = xy{pk.X, pk.Y, RefKeyEnc(p)}
+	}
+	sort.SliceStable(ks, func(i, j int) bool {
+		if c := ks[i].x.Cmp(ks[j].x); c != 0 {
+			return c < 0
+		}
+		return ks[i].y.Cmp(ks[j].y) < 0
+	})
+	prog := []byte{byte(len(ks)), byte(len(ks) >> 8)}
+	for _, k := range ks {
+		prog = append(prog, byte(len(k.enc)))
+		prog = append(prog, k.enc...)
+	}
+	prog = append(prog, byte(m), byte(m>>8))
+	return RefAddress(prog)
 }
 
 // ---------------------------------------------------------------------------------------------
